@@ -416,6 +416,13 @@ func (p *nriPlugin) CreateContainer(ctx context.Context, pod *api.PodSandbox, co
 	b := metrics.Block()
 	defer b.Done()
 
+	if old, ok := m.cache.LookupContainer(container.GetId()); ok {
+		nri.Warn("%s: container %s already exists, releasing its old instance", event, container.GetId())
+		if err := m.policy.ReleaseResources(old); err != nil {
+			nri.Error("%s: failed to release old instance of %s", event, container.GetId())
+		}
+	}
+
 	c, err := m.cache.InsertContainer(container, cache.WithContainerState(cache.ContainerStateCreating))
 	if err != nil {
 		return nil, nil, fmt.Errorf("failed to cache container: %w", err)
